@@ -90,13 +90,24 @@ def drive_storage(case, sh, state):
     universe = sorted({g for ops in case["writers"] for g, _, _ in ops} | set(case.get("extra_ids", [])))
     if not universe:
         universe = [0]
-    if case.get("parent_reads_before_fork"):
-        # readers forked afterwards inherit the parent's read handles (thorough tier only)
-        for g in universe[:3]:
-            _read_once(st, sh, "P", g)
     start, stop = ctx.Event(), ctx.Event()
     procs = []
+    first_phase = []
+    if case.get("parent_reads_before_fork") and len(case["writers"]) >= 2:
+        # two phases: the first writer runs to completion, the parent reads everything it stored (and thereby opens its
+        # read handles), and only then the remaining writers and the readers are forked - they inherit those handles
+        state["phase"] = "first_phase"
+        p0 = ctx.Process(target=_writer, args=(st, case["writers"][0], sh, 0, start, dict(case, linger=0)))
+        start.set()
+        p0.start()
+        p0.join()
+        first_phase.append(p0)
+        for g in universe:
+            _read_once(st, sh, "P", g)
+        sh.log("parent_read_before_fork")
     for wi, ops in enumerate(case["writers"]):
+        if first_phase and wi == 0:
+            continue
         procs.append(("w", ctx.Process(target=_writer, args=(st, ops, sh, wi, start, case))))
     for ri in range(case.get("readers", 0)):
         procs.append(("r", ctx.Process(target=_reader, args=(st, universe, sh, ri, start, stop, case.get("max_reads", 300),
@@ -120,7 +131,7 @@ def drive_storage(case, sh, state):
     for kind, p in procs:
         if kind == "r":
             p.join()
-    final["exitcodes"] = [p.exitcode for _, p in procs]
+    final["exitcodes"] = [p.exitcode for _, p in procs] + [p.exitcode for p in first_phase]
     # ---- quiescent point: everything that was stored is visible
     state["phase"] = "final_checks"
     sh.log("quiescent")
